@@ -575,19 +575,30 @@ def p_lists(env):
     return out
 
 
-def impl_localpath(impl, root, comps):
+def impl_localpath(impl, root, comps, jail):
+    """request_to_localpath is pure path arithmetic; it still runs inside the jail so that a
+    version that starts touching the file system cannot reach the (non-scratch) roots used here"""
     fs = impl.server(root, False, True)
     req = impl.request("GET", comps)
-    try:
-        p = fs.request_to_localpath(req)
-    except impl.fsmod.InvalidPathError:
-        return "err"
-    except Exception as e:
-        return "exc:" + type(e).__name__
-    out = "ok " + pure_tok(p)
-    run_coro(fs.add_observation(req, FakeObservation()))
+    jail.log, jail.refused = [], []
+    with jail:
+        try:
+            p = fs.request_to_localpath(req)
+        except impl.fsmod.InvalidPathError:
+            return "err"
+        except Refused:
+            return "exc:Refused"
+        except Exception as e:
+            return "exc:" + type(e).__name__
+        out = "ok " + pure_tok(p)
+        try:
+            run_coro(fs.add_observation(req, FakeObservation()))
+        except Refused:
+            return out + " exc:Refused"
     if list(fs._observations) != [p]:
         out += " observation-key-differs"
+    if jail.log:
+        out += " touched-fs:" + ",".join(sorted({e["fn"] for e in jail.log}))
     return out
 
 
@@ -660,7 +671,7 @@ def run(env, rep):
         lines, outs = [], []
         for root, comps in pcs:
             lines.append(f"C19 P {pure_tok(PurePosixPath(root))} {comps_tok(comps)}")
-            o = impl_localpath(impl, root, comps)
+            o = impl_localpath(impl, root, comps, runner.sc.jail)
             outs.append(o)
             case = {"kind": "P", "root": root, "comps": comps}
             rep.case(case, nontrivial=bool(comps), sample_every=3000)
@@ -723,7 +734,7 @@ def run(env, rep):
         flush()
         rep.exhaustive_parts.append("every block (and two past the end) of every boundary-size file for szx 0..7")
         rep.exhaustive_parts.append("all Uri-Path lists of length <= 2 over 15 symbols and length 3 over 6 symbols")
-        for k in ("R:outcome=2.05", "R:outcome=4.00", "R:outcome=2.04", "R:outcome=2.02", "R:outcome=4.03",
+        for k in () if (rep.oracle_failures or rep.disagreements) else ("R:outcome=2.05", "R:outcome=4.00", "R:outcome=2.04", "R:outcome=2.02", "R:outcome=4.03",
                   "R:outcome=4.12", "R:outcome=crash", "R:op=T", "R:op=L", "R:op=O", "R:op=U"):
             if not rep.hist.get(k):
                 raise HarnessError(f"generator never produced {k}")
@@ -739,7 +750,11 @@ def replay(env, case):
         return ""
     if kind == "P":
         impl = Impl(env)
-        o = impl_localpath(impl, case["root"], case["comps"])
+        d = tempfile.mkdtemp(prefix="c19-")
+        try:
+            o = impl_localpath(impl, case["root"], case["comps"], Jail(os.path.realpath(d)))
+        finally:
+            shutil.rmtree(d, ignore_errors=True)
         if o.startswith("ok"):
             ps, rs = tok_to_str(o.split(" ")[1]), str(PurePosixPath(case["root"]))
             if not inside(lexical_abs("/cwd", ps), lexical_abs("/cwd", rs)) or \
